@@ -25,7 +25,7 @@ def main():
     for item in job["items"]:
         try:
             obj = PreOCF.load_ocf(item["path"], trusted=True)
-            rec = {"signature": list(obj.signature), "ranks_as_loaded": dict(obj.ranks),
+            rec = {"signature": list(obj.signature), "ranks_as_loaded": dict(obj.ranks), "worlds": sorted(obj.ranks),
                    "impacts": list(getattr(obj, "_impacts", []) or []) if hasattr(obj, "_impacts") else None,
                    "ranking_system": obj.ranking_system}
             lazy = {}
